@@ -7,7 +7,7 @@ import numpy as np
 from hypothesis import strategies as st
 
 from vlib import gens
-from vlib.core import Prop, Sub, Violation, calling, check
+from vlib.core import unchanged, Prop, Sub, Violation, calling, check
 from vlib.oracles import _linprog, hull_dist
 from vlib.systems import Sys, matrix_system
 
@@ -104,8 +104,13 @@ def body_dist(case):
     with calling(f"gamut_dist_scaling(relative={rel})"):
         est = sv.make_estimator()
         with np.errstate(all="ignore"):
-            out = est.gamut_dist_scaling(B, neutral_point=(None if case["neutral"] is None else neutral), relative=rel)
+            # both scalings, the intensity one first (as in the documented work flow): queries do not change the registered system
+            with unchanged("dist", estimator=est):
+                est.gamut_l1_scaling(B, relative=rel)
+                out = est.gamut_dist_scaling(B, neutral_point=(None if case["neutral"] is None else neutral), relative=rel)
+                again = est.gamut_dist_scaling(B, neutral_point=(None if case["neutral"] is None else neutral), relative=rel)
     out = np.asarray(out, dtype=float)
+    check(np.array_equal(out, np.asarray(again, dtype=float), equal_nan=True), "dist:second-call-differs", "the same call on the same estimator gives another result")
     check(np.array_equal(B, B0), "dist:input-modified", "caller's target array modified")
     check(out.shape == B.shape, "dist:shape", f"{out.shape}")
     check(np.all(np.isfinite(out)), "dist:nonfinite", f"non-finite output {out.tolist()}")
@@ -184,7 +189,10 @@ def body_l1(case):
     B0 = B.copy()
     with calling(f"gamut_l1_scaling(relative={rel})"):
         est = sv.make_estimator()
-        out = np.asarray(est.gamut_l1_scaling(B, relative=rel), dtype=float)
+        with unchanged("l1", estimator=est):
+            out = np.asarray(est.gamut_l1_scaling(B, relative=rel), dtype=float)
+            again = np.asarray(est.gamut_l1_scaling(B, relative=rel), dtype=float)
+    check(np.array_equal(out, again, equal_nan=True), "l1:second-call-differs", "the same call on the same estimator gives another result")
     check(np.array_equal(B, B0), "l1:input-modified", "caller's target array modified")
     check(out.shape == B.shape and np.all(np.isfinite(out)), "l1:shape", f"{out.shape}")
     L_in, L_out = B - basep, out - basep
